@@ -93,6 +93,11 @@ CHECKS = {
         technique='TLC enumerates maintenance histories of the table modules (TabsImpl.tla); each history and each table configuration is exercised in a fresh interpreter on a scratch copy; full outcomes over a TLC-derived input pool compared pairwise',
         text='For an input pool of TLC-derived programs (with line-break layouts that exercise the ASI / regex backtracking paths) and non-derivable mutations, the full outcome (tree with positions and values, or exception type and message) is computed in fresh interpreters with: generated modules, absent modules, modules regenerated by `python -m calmjs.parse.parsers.optimize`, and after every TabsImpl history (purge, reoptimize, optimize_build, parser constructions) x {default optimised parser, lex/yacc optimisation off}.  All outcomes must be equal.',
         note='Only ply 3.11 / Python 3.12 exist in the sandbox; the TabsImpl model predicts the presence of the modules on disk after a history (drift is reported, not judged).'),
+    'C13': dict(
+        category='model_checking', design_ref='5 (C13)',
+        technique='TLC-derived sentences (with line-break flags) get comments placed in rotating gaps; replayed into parse with / without capture (dictated tree), attached comments validated as position probes by PosTrace.tla, pretty-print round trip compared',
+        text='For TLC-derived programs of 7 themes with one or two comments (single-line block anywhere; line comments and multi-line block comments where the derivation has a line break or at the end; adjacent pairs): parsing with capture must give the same verdict and the dictated tree as without; every attached comment must be a verbatim placed comment at its recorded offset / line / column (TLC, LineCol machine), not attached twice; pretty-printing and re-parsing with capture must give the same tree and the same comments in traversal order.',
+        note='Capturing all comments is not demanded; three named deviations of the round-trip clause are listed in known_findings.json and recognised by a predicate on the printed text (cause classes), anything else is a violation.'),
 }
 
 NOT_YET = {}
